@@ -328,6 +328,60 @@ def run(ctx):
                  "the final gap fill always runs to the last sent number: a bounded request (EndSeqNo below the last sent number) is answered with a gap fill over "
                  "messages it did not ask to skip, and they are deleted from the journal", loc(tail_ops[0]) if tail_ops else loc(fn))
 
+    # the bound of the journal query: the request's EndSeqNo, and "everything" exactly when EndSeqNo is 0 (FIX: 0 = infinity).  Decided on the
+    # definitions of the bound that reach the query: the field's own value must reach it (on the non-zero side), and a definition made under
+    # the zero test that is not a small number must reach it too; `x or BIG` / a definition from the field inside one expression is read as both.
+    from sa.guards import reaching_defs
+    rd6 = reaching_defs(g, exc=False)
+    qcalls = [(n, c) for n in g.nodes if n.kind in ("stmt", "test") and n.ast is not None for c in walk_no_nested(n.ast)
+              if isinstance(c, ast.Call) and isinstance(c.func, ast.Attribute) and c.func.attr == "recover_messages"]
+    if len(qcalls) != 1:
+        raise AnalysisError(f"_process_resend: expected one recover_messages call, found {len(qcalls)}")
+    qn, qc = qcalls[0]
+    bound = qc.args[3] if len(qc.args) >= 4 else next((k.value for k in qc.keywords if k.arg == "end_seq_no"), None)
+    if bound is None:
+        raise AnalysisError("_process_resend: the upper bound of the journal query was not found")
+
+    def zero_fact(a, tv, nm):
+        return (a in (f"{nm} == 0", f"{nm} <= 0", f"{nm} < 1", f"not {nm}") and tv) or (a in (f"{nm} != 0", f"{nm} > 0", f"{nm} >= 1", nm) and not tv)
+    field_ok = inf_ok = False
+    unknown = None
+    if isinstance(bound, ast.Name):
+        cands = set(rd6[qn.id].get(bound.id, set()))
+        for d in sorted(cands):
+            others = cands - {d}
+            if others and g.witness_path(d, [qn.id], avoid=others, exc=False) is None:
+                continue
+            dv_ = getattr(g.nodes[d].ast, "value", None)
+            if dv_ is None or not isinstance(g.nodes[d].ast, ast.Assign):
+                unknown = g.nodes[d].ast
+                continue
+            txt = unparse(dv_)
+            fsd = set()
+            for t, lab in g.guards(d, exc=False):
+                fsd |= facts(t, lab == "true")
+            if "FTag.EndSeqNo" in txt or endv in {x.id for x in ast.walk(dv_) if isinstance(x, ast.Name)} - {bound.id}:
+                field_ok = True
+                if isinstance(dv_, ast.BoolOp) and isinstance(dv_.op, ast.Or) and len(dv_.values) == 2:
+                    inf_ok = inf_ok or not (isinstance(dv_.values[1], ast.Constant) and isinstance(dv_.values[1].value, int) and dv_.values[1].value < 2 ** 31)
+                continue
+            small = isinstance(dv_, ast.Constant) and isinstance(dv_.value, int) and dv_.value < 2 ** 31
+            if any(zero_fact(a, tv, endv) or zero_fact(a, tv, bound.id) for a, tv in fsd) and not small:
+                inf_ok = True
+    else:
+        txt = unparse(bound)
+        if isinstance(bound, ast.BoolOp) and isinstance(bound.op, ast.Or) and endv in txt:
+            field_ok = inf_ok = True
+        else:
+            unknown = bound
+    if unknown is not None and not (field_ok and inf_ok):
+        raise AnalysisError(f"_process_resend: how the bound of the journal query is computed (`{short(unknown)}`) is not of a form this rule knows")
+    ctx.instance(R6, "_process_resend[journal query bounded by the request's EndSeqNo]", field_ok,
+                 "the value of EndSeqNo does not reach the upper bound of the journal query: a bounded request is replayed to the end of the journal", loc(qc))
+    ctx.instance(R6, "_process_resend[EndSeqNo = 0 means everything]", inf_ok,
+                 "no 'unbounded' value is substituted exactly when EndSeqNo is 0: the journal query for (BeginSeqNo, 0) returns nothing, and every application "
+                 "message the peer asked for is covered by a gap fill instead of being retransmitted", loc(qc))
+
     # ------------------------------------------------------------------ rule 7
     beginv = None
     for n in walk_no_nested(fn):
